@@ -24,6 +24,8 @@ pub trait Message: Sized { type Response; }
 pub trait Handler<M: Message>: Actor {
     fn handle(&mut self, ctx: &mut Context<Self>, msg: M, Tracked(w): Tracked<&mut World>) -> (r: M::Response)
         ensures emits(old(w), final(w), Ev::Handled { mid: mid_of(&msg) }), rid(&r) == handler_result(mid_of(&msg)), final(self).gid() == old(self).gid();
+    // the same invocation as a future VALUE (rule A1b), see HandleFut below
+    fn handle__fut<'a>(&'a mut self, ctx: &'a mut Context<Self>, msg: M) -> (r: HandleFut<'a, M::Response>) ensures r.mid() == mid_of(&msg), final(self).gid() == old(self).gid();
 }
 // payload objects: which closure literal, for which message, answering on which slot (C02)
 pub struct PayloadDesc { pub code: int, pub mid: int, pub slot: int }
@@ -40,3 +42,30 @@ pub open spec fn ppid<A>(p: &Payload<A>) -> int { match p { Payload::Task(f) => 
 pub broadcast axiom fn pid_of_payload<A>(p: &Payload<A>) ensures #[trigger] pid_of(p) == ppid(p);
 // client contract (§5.2): a message value owns nothing of hannibal's channels (it holds no handle to the actor it is sent to)
 pub broadcast axiom fn own_of_message<M: Message>(m: &M) ensures #[trigger] own_of(m) == own_none();
+// a handler invocation as a future VALUE (rule A1b; only a changed tree races it against something): run to completion it is the
+// invocation (its Handled event, the result for that message); dropped un-finished the invocation is ABANDONED half-way: no Handled event,
+// no result (what it did before being dropped is client state the model does not track)
+#[verifier::external_body] #[verifier::accept_recursive_types(R)] pub struct HandleFut<'a, R> { p: core::marker::PhantomData<&'a mut R> }
+impl<'a, R> HandleFut<'a, R> { pub uninterp spec fn mid(&self) -> int; pub uninterp spec fn needs(&self) -> nat; }
+impl<'a, R> VFuture for HandleFut<'a, R> {
+    type Output = R;
+    open spec fn pre(&self, w: &World) -> bool { true }
+    open spec fn done(&self, w0: &World, w1: &World, out: &R) -> bool { emits(w0, w1, Ev::Handled { mid: self.mid() }) && rid(out) == handler_result(self.mid()) }
+    open spec fn dropped(&self, w0: &World, w1: &World) -> bool { same_world(w0, w1) }
+    open spec fn ready_at(&self) -> nat { self.needs() }
+    #[verifier::external_body] fn await_(self, Tracked(w): Tracked<&mut World>) -> (r: R) { unimplemented!() }
+}
+// oneshot::Sender::cancellation(): resolves once the receiving half is gone (the caller gave up)
+#[verifier::external_body] pub struct CancellationFut<'a> { p: core::marker::PhantomData<&'a mut ()> }
+impl<'a> CancellationFut<'a> { pub uninterp spec fn needs(&self) -> nat; }
+impl<'a> VFuture for CancellationFut<'a> {
+    type Output = ();
+    open spec fn pre(&self, w: &World) -> bool { true }
+    open spec fn done(&self, w0: &World, w1: &World, out: &()) -> bool { same_world(w0, w1) }
+    open spec fn dropped(&self, w0: &World, w1: &World) -> bool { same_world(w0, w1) }
+    open spec fn ready_at(&self) -> nat { self.needs() }
+    #[verifier::external_body] fn await_(self, Tracked(w): Tracked<&mut World>) -> (r: ()) { unimplemented!() }
+}
+impl<T> OsSender<T> {
+    #[verifier::external_body] pub fn cancellation<'a>(&'a mut self) -> (r: CancellationFut<'a>) ensures final(self).slot() == old(self).slot() { unimplemented!() }
+}
